@@ -341,6 +341,11 @@ func (im *impl) handle(c Cmd) (r Reply, err error) {
 		// returns at once; the listener is (for the non-multiplexed gRPC broker)
 		// announced by the goroutine.
 		return r, im.brokerAccept(c)
+	case "broker_stop":
+		// stop a brokered server this process started earlier (the caller is done with it)
+		if f, ok := brokered.Load(c.ID); ok {
+			f.(func())()
+		}
 	case "broker_dial":
 		// Dial id, call "tag" on it and report who answered.
 		rr, derr := im.brokerDial(c)
